@@ -53,19 +53,26 @@ Theorem C10_crc32_check_value : crc32 [49;50;51;52;53;54;55;56;57] = 3421780262.
 Proof. exact crc_check. Qed.
 Print Assumptions C10_crc32_check_value.
 
-(* ---- replay ORDER across the WAL files of one block (RecoverWALData / extractWALFileInfo):
-   the files are replayed in directory (file-name) order.  FULL STATEMENT: that is the append
-   order (file index 0, 1, 2, ...).  It holds up to 10 files and is refuted with an 11th:
-   "…_10.wal" sorts between "…_1.wal" and "…_2.wal" (known finding). ---- *)
+(* ---- replay ORDER across the WAL files of one block (RecoverWALData / extractWALFileInfo).
+   FULL STATEMENT: the files are replayed in append order (file index 0, 1, 2, ...) for EVERY number
+   of files.  It holds for the fixed code (fixes/C10-wal-replay-order: the names read from the
+   directory are sorted by their numeric index). ---- *)
 From SigM Require Import WalOrder.
 From SigP Require Import WalOrderProofs.
-Theorem C10_replay_in_append_order_guarded : forall n, (n <= 10)%nat -> dir_order n = seq 0 n.
+Theorem C10_replay_in_append_order : forall n, replay_order n = seq 0 n.
+Proof. exact wal_replay_order_is_append_order. Qed.
+Print Assumptions C10_replay_in_append_order.
+
+(* PRE-FIX documentation (about [dir_order], the bare directory = file-name order; no longer what is
+   replayed): append order only up to 10 files, refuted with an 11th: "…_10.wal" sorts between
+   "…_1.wal" and "…_2.wal". *)
+Theorem C10_prefix_dir_order_guarded : forall n, (n <= 10)%nat -> dir_order n = seq 0 n.
 Proof. exact wal_dir_order_small. Qed.
-Print Assumptions C10_replay_in_append_order_guarded.
-Theorem C10_replay_in_append_order_refuted :
+Print Assumptions C10_prefix_dir_order_guarded.
+Theorem C10_prefix_dir_order_refuted :
   dir_order 11 = [0; 1; 10; 2; 3; 4; 5; 6; 7; 8; 9]%nat /\ dir_order 11 <> seq 0 11.
 Proof. exact wal_dir_order_refuted. Qed.
-Print Assumptions C10_replay_in_append_order_refuted.
+Print Assumptions C10_prefix_dir_order_refuted.
 
 (* ---- Wal.Write: the metrics meta-entry log is REWRITTEN (one block replaces the file) about once a
    second.  FULL STATEMENT: after a crash that follows ANY number k of the system calls of ANY sequence of
